@@ -126,6 +126,11 @@ func (w *watches) updatePath(path string, f func(*watch) (*watch, error)) error 
 
 		if upd.wd != wd {
 			delete(w.wd, wd)
+			// The path now refers to a file that's already watched under
+			// another name: don't keep a path entry without a watch.
+			if ok && upd.path != path {
+				delete(w.path, path)
+			}
 		}
 	}
 
